@@ -1,0 +1,30 @@
+//go:build verif
+
+package dbc
+
+import "io"
+
+// VerifToken is a token of the scanner as seen by the verification harness.
+type VerifToken struct {
+	Kind  string
+	Value string
+	Line  int
+	Col   int
+}
+
+// VerifScan scans the whole input and returns all tokens but the spaces.
+// The last token is always an "eof" or an "error" token.
+func VerifScan(r io.Reader) []VerifToken {
+	s := newScanner(r)
+	res := []VerifToken{}
+	for {
+		t := s.scan()
+		if t.isSpace() {
+			continue
+		}
+		res = append(res, VerifToken{Kind: t.kindName, Value: t.value, Line: t.startLine, Col: t.startCol})
+		if t.isEOF() || t.isError() {
+			return res
+		}
+	}
+}
